@@ -440,6 +440,9 @@ def corpus_build(name, top, i, o):
         return MsgSequencer(top, 'dut', i[0], o[0], o[1], 'Hi!')
     if name == 'MsgSequencer1':
         return MsgSequencer(top, 'dut', i[0], o[0], o[1], 'X')
+    if name == 'MsgSequencerSpecial':
+        # every printable ASCII character plus control characters: some are special inside Verilog literals
+        return MsgSequencer(top, 'dut', i[0], o[0], o[1], ''.join(chr(c) for c in range(32, 127)) + '\n\t\r\x00\x7f')
     if name == 'CMDRequest':
         return HIL.CMDRequest(top, 'dut', o[0], i[0], i[1], o[1], o[2], o[3], o[4], o[5], o[6], o[7], o[8])
     if name == 'CMDResponse':
@@ -473,7 +476,7 @@ def corpus_build(name, top, i, o):
 
 CORPUS = {
     'UARTSerializer': ([1, 8, 1], [1, 1]), 'UARTDeserializer': ([1, 1, 1], [1, 8, 1]),
-    'ClockGenerationAndRecovery': ([1, 1], [1, 1]), 'MsgSequencer': ([1], [1, 8]), 'MsgSequencer1': ([1], [1, 8]),
+    'ClockGenerationAndRecovery': ([1, 1], [1, 1]), 'MsgSequencer': ([1], [1, 8]), 'MsgSequencer1': ([1], [1, 8]), 'MsgSequencerSpecial': ([1], [1, 8]),
     'CMDRequest': ([1, 8], [1, 4, 32, 4, 1, 1, 1, 1, 1]), 'CMDResponse': ([32, 8, 1, 1], [1, 8]),
     'Axi2ClkFSM': ([1, 64, 1], [64, 1, 1]), 'VitisKernelFSM': ([1, 1, 1, 1], [1, 1, 1]), 'AutoReset': ([], [1]),
     'Latch': ([4, 1], [4]), 'AsynchronousMemory': ([2, 2, 1, 4], [4]), 'SubBorrowIn': ([4, 4, 1], [4]),
